@@ -27,6 +27,6 @@ package schema
 //@   in schema.(*Field).setupValuerAndSetter$*
 //@   do newInstances = newInstances + 1
 //@   do lastNewPtr = result.ptr
-//@ func (*Field).setupValuerAndSetter${store:serializer.Serializer}
+//@ func (*Field).setupValuerAndSetter${invoke:SerializerInterface.Scan}
 //@   tags C03
 //@   ensures scanned-holder-gets-new-instance: is(v, *serializer) && old(v.(*serializer).fieldValue) == nil && result == nil ==> newInstances == old(newInstances) + 1 && boxof(v.(*serializer).Serializer) == uf("ifaceOfValue", lastNewPtr)
